@@ -172,7 +172,9 @@ func (l *lab) RADIUSSecret(ctx context.Context, remoteAddr net.Addr) ([]byte, er
 	<-release
 	s, ok := l.secrets[remoteAddr.String()]
 	if !ok {
-		return nil, errors.New("no secret for peer")
+		// (an error together with a plausible stale / fallback secret: "the secret source yields a secret" is the
+		// outcome WITHOUT an error - what comes along with an error must not be used)
+		return []byte("s"), errors.New("no secret for peer")
 	}
 	return s, nil
 }
@@ -656,12 +658,22 @@ func runServerScenario(skipVerify bool, secretSpec string, cmds []string, w *os.
 			l.downCancel[j]()
 			ol.add("C=ok")
 		case 'W':
-			j := atoi(arg)
+			// W<j> or W<j>:<ms> - how long "blocked" is watched before it is reported (default labBlocked)
+			wf := strings.SplitN(arg, ":", 2)
+			j := atoi(wf[0])
+			watch := labBlocked
+			if len(wf) == 2 {
+				if ms := atoi(wf[1]); ms > 0 && ms <= 20000 {
+					watch = time.Duration(ms) * time.Millisecond
+				} else {
+					return "BAD-CASE"
+				}
+			}
 			switch {
 			case strings.HasPrefix(downState[j], "returned:"):
 				ol.add("W=" + strings.TrimPrefix(downState[j], "returned:"))
 			case downState[j] == "waiting":
-				if r, ok := waitStr(l.downRet[j], labBlocked); ok {
+				if r, ok := waitStr(l.downRet[j], watch); ok {
 					downState[j] = "returned:" + r
 					ol.add("W=" + r)
 				} else {
@@ -1199,9 +1211,12 @@ func genC07(g *Gen, tier string, emit func(op string, args ...string)) {
 	// a Serve call that is refused (no Handler / no SecretSource) leaves nothing behind: Shutdown returns nil
 	emit("nilcfg", "-")
 	// "no data race": the clean-ups of handlers that return at the same instant
-	for _, n := range []int{4, 16, 48} {
+	for _, n := range []int{4, 16, 48, 520} {
 		emit("finishes", itoa(n))
 	}
+	// ListenAndServe: the socket it opened is served until Shutdown, and it returns ErrServerShutdown like Serve
+	emit("listen", "-")
+	emit("listen", "udp4")
 	sc := func(cmds []string) {
 		emit("scenario", "0", "0:73", strings.Join(append(cmds, "Z"), ","))
 	}
@@ -1215,6 +1230,9 @@ func genC07(g *Gen, tier string, emit func(op string, args ...string)) {
 		}
 		return []string{"X" + itoa(j), "x" + itoa(j), "W" + itoa(j), "W" + itoa(j)}
 	}
+	// Shutdown with a context that never ends waits as long as a handler runs - seconds, not just the 80 ms the other
+	// scenarios watch it for (a "grace period" after which it gives up with a context error it was never given)
+	sc([]string{"S0", "s0", "D0:0:" + d0, "d0", "X0", "x0", "W0:4200", "F0:2", "e0", "W0"})
 	// a datagram the read had already taken when Shutdown closed the conn: handled, and waited for
 	sc([]string{"S0", "s0", "X0", "x0", "D0:0:" + d0, "W0", "d0", "W0", "F0:2", "W0", "e0", "W0"})
 	sc([]string{"S0", "s0", "X0", "x0", "C0", "W0", "D0:0:" + d1, "d0", "F0:2", "e0"})
@@ -1277,7 +1295,7 @@ func genC06(g *Gen, tier string, emit func(op string, args ...string)) {
 	for _, nw := range []string{"-", "udp", "udp4"} {
 		emit("listen", nw)
 	}
-	for _, k := range []int{2, 3, 8, 16, 32} {
+	for _, k := range []int{2, 3, 8, 16, 32, 300, 600} {
 		emit("finishes", itoa(k))
 	}
 	// a handler that answers first and goes on working: the request stays in flight until the handler RETURNS - a
@@ -1534,6 +1552,9 @@ func genC06(g *Gen, tier string, emit func(op string, args ...string)) {
 // parked scenarios this lets the goroutines race for the table (meaningful under -race as well).
 type dupConn struct {
 	barrier *barrierAddr
+	// perPeer > 0: datagram number k comes from peer k/perPeer (more requests in flight than one peer has identifiers)
+	perPeer int
+	served  int32
 	in      chan []byte
 	closed  chan struct{}
 	once    sync.Once
@@ -1578,6 +1599,10 @@ func (c *dupConn) ReadFrom(p []byte) (int, net.Addr, error) {
 			b := *c.barrier // (a new address object per datagram, as net.UDPConn hands out)
 			return copy(p, d), &b, nil
 		}
+		if c.perPeer > 0 {
+			k := int(atomic.AddInt32(&c.served, 1)) - 1
+			return copy(p, d), &labAddr{"peer" + itoa(k/c.perPeer)}, nil
+		}
 		return copy(p, d), &labAddr{"peer0"}, nil
 	case <-c.closed:
 		return 0, nil, &net.OpError{Op: "read", Net: "udp", Err: net.ErrClosed}
@@ -1613,15 +1638,21 @@ func runDups(n int, w *os.File) string {
 // the same instant, so their deferred clean-ups (the table of requests in flight, the active count) run
 // concurrently.  Forty rounds; the first deviating round is reported.
 func runFinishes(n int) string {
-	if n < 2 || n > 64 {
+	if n < 2 || n > 700 {
 		return "BAD-CASE"
 	}
 	want := fmt.Sprintf("starts=%d shutdown=nil", n)
 	out := want
-	for round := 0; round < 40 && out == want; round++ {
+	rounds := 40
+	if n > 64 {
+		// (several hundred requests in flight at once, from more than one peer: every one of them is a received valid
+		// datagram with an identifier of its own; three rounds)
+		rounds = 3
+	}
+	for round := 0; round < rounds && out == want; round++ {
 		var starts, dones int32
 		release := make(chan struct{})
-		conn := &dupConn{in: make(chan []byte), closed: make(chan struct{})}
+		conn := &dupConn{in: make(chan []byte), closed: make(chan struct{}), perPeer: 250}
 		srv := &radius.PacketServer{SecretSource: radius.StaticSecretSource([]byte("s")), Handler: radius.HandlerFunc(func(w radius.ResponseWriter, r *radius.Request) {
 			atomic.AddInt32(&starts, 1)
 			<-release
@@ -1633,7 +1664,7 @@ func runFinishes(n int) string {
 		})
 		go srv.Serve(conn)
 		for i := 0; i < n; i++ {
-			conn.in <- accessRequest(byte(1 + i))
+			conn.in <- accessRequest(byte(1 + i%250))
 		}
 		for deadline := time.Now().Add(labWait); time.Now().Before(deadline) && int(atomic.LoadInt32(&starts)) < n; {
 			time.Sleep(200 * time.Microsecond)
